@@ -396,6 +396,7 @@ func vC04DBLevel(t *testing.T, run *vC04Run, b vC04Beh, bi int, d *vC04DBs, useD
 		}
 	}
 	lastCur := [2]string{}
+	deleteDocOn := map[[2]string]bool{}
 	for _, st := range b.Steps {
 		i := st.I - 1
 		col, ctx := d.col[i], d.ctx[i]
@@ -408,7 +409,11 @@ func vC04DBLevel(t *testing.T, run *vC04Run, b vC04Beh, bi int, d *vC04DBs, useD
 			parent := run.idOf(st.P)
 			ev.p = parent
 			var newRev string
-			if st.Del && useDeleteDoc {
+			viaDeleteDoc := st.Del && useDeleteDoc && !deleteDocOn[[2]string{fmt.Sprint(i), parent}]
+			if viaDeleteDoc {
+				// DeleteDoc's body is fixed, so a second DeleteDoc on the same parent would name the same revision id
+				// again (and be refused as a duplicate); the model's Put makes a new revision: use a tagged body then
+				deleteDocOn[[2]string{fmt.Sprint(i), parent}] = true
 				ev.b = ""
 				newRev, retDoc, err = col.DeleteDoc(ctx, docid, DocVersion{RevTreeID: parent})
 			} else {
@@ -471,7 +476,7 @@ func vC04DBLevel(t *testing.T, run *vC04Run, b vC04Beh, bi int, d *vC04DBs, useD
 		default:
 			t.Fatalf("VERIF-FATAL unknown db-level action %q", st.A)
 		}
-		if st.A == "Child" && st.Del && useDeleteDoc && err == nil {
+		if st.A == "Child" && ev.b == "" && err == nil {
 			run.tagOf[ev.r] = "-" // written with an empty body
 		}
 		// read the stored document back
